@@ -47,10 +47,27 @@ def run_single(prop, tier, seed, shard, nshards, out=None, replay_case=None):
     secs = mod.BUDGET[tier]
     budget = Budget(secs)
     try:
-        if replay_case is not None:
+        if replay_case is not None and str(replay_case.get("driver", "")).startswith("piggy."):
+            # a violation seen while the repository's tests / howtos / examples ran under the monitors:
+            # arm the check's monitors (run with an exhausted budget registers them without generating work), then re-run that workload
+            from . import piggy
+
+            mod.run(rec, hub, "quick", seed, 0, 1, Budget(-1))
+            rec.events.clear()
+            what = replay_case["driver"].split(".")[1]
+            if what == "tests":
+                piggy.run_repo_tests(rec, hub)
+            else:
+                piggy.run_scripts(rec, hub, what, only=replay_case.get("script"))
+        elif replay_case is not None:
             mod.replay(rec, hub, replay_case)
         else:
             mod.run(rec, hub, tier, seed, shard, nshards, budget)
+            if tier == "thorough" and getattr(mod, "PIGGY", False) and shard < 3:
+                # piggy-back workloads: repo tests (shard 0), howtos (1), examples (2) under the same monitors
+                from . import piggy
+
+                piggy.run_all(rec, hub, shard, 3)
     except Exception:
         import traceback
 
